@@ -136,8 +136,10 @@ def plan(tier, seed):
         return 2 if sz <= 3 else (1 if sz <= 7 else 0)
     for spec in kn:
         units.append(("K", [spec], depth_for(spec), tier))
-    for ch in U.chunks([x for x in u2 if c04.sd_size(x) >= 3], 2):
+    for ch in U.chunks([x for x in u2 if c04.sd_size(x) >= 4], 2):
         units.append(("U2", ch, depth_for(ch[0]) if tier != "quick" else 1, tier))
+    for ch in U.chunks([x for x in u2 if c04.sd_size(x) == 3], 3):
+        units.append(("U2", ch, depth_for(ch[0]) if tier != "quick" else 0, tier))
     for ch in U.chunks([x for x in u2 if c04.sd_size(x) < 3], 6):
         units.append(("U2", ch, 2 if tier != "quick" else 0, tier))
     unis["K(n<=4)"] = len(kn)
@@ -159,7 +161,7 @@ def plan(tier, seed):
     units.sort(key=lambda u: (-u[2], u[0] != "K"))
     return {
         "units": units, "universes": unis,
-        "bounds": {"prior states": f"fresh diagram; every state reachable by {d} call(s) of the full alphabet on K and U2 (quick: U2 members with |SD|>=3 only)",
+        "bounds": {"prior states": f"fresh diagram; every state reachable by {d} call(s) of the full alphabet on K and U2 (quick: U2 members with |SD|>=4 only)",
                    "limit values": "size limit 1..|full diagram|+1, level/stack limit 0..3, on bfs/dfs/minimal(both)/aseeds/target/block(4)",
                    "config limits": "max_motifs_per_node 1..max+1; attractor_candidates_limit 0..4; retained_set_optimization_threshold 0..2",
                    "fault points": "every clingo ground()/solve() call (index k=0..K-1) of every operation of the fault menu",
